@@ -10,6 +10,7 @@ import (
 	"fmt"
 	"go/types"
 	"os"
+	"runtime/pprof"
 	"sort"
 	"strings"
 	"time"
@@ -125,7 +126,13 @@ func worker(args []string) {
 	overlay := fs.String("overlay", "", "JSON file {virtual path: real path} of overlay files")
 	solver := fs.String("solver", "z3", "z3 | z3-new | cvc5")
 	timeout := fs.Int("qtimeout", 10000, "per-query timeout (ms)")
+	cpuprof := fs.String("cpuprofile", "", "write CPU profile")
 	fs.Parse(args)
+	if *cpuprof != "" {
+		f, _ := os.Create(*cpuprof)
+		pprof.StartCPUProfile(f)
+		defer pprof.StopCPUProfile()
+	}
 
 	t0 := time.Now()
 	_, spkgs, err := loadProgram(*dir, *overlay, []string{*pkg})
